@@ -212,7 +212,7 @@ def _isinst1(E, v, t):
         return (isinstance(v, Ref) and E.cell(v)[0] in ("pylist", "seq")) or (isinstance(v, SV) and isinstance(v.ty, TList))
     if name in ("tuple", "Tuple"):
         return isinstance(v, tuple) or (isinstance(v, SV) and isinstance(v.ty, TTuple))
-    if name == "dict":
+    if name in ("dict", "Dict"):
         return isinstance(v, Ref) and E.cell(v)[0] in ("pydict", "dict")
     if name == "set":
         return isinstance(v, (frozenset,)) or (isinstance(v, Ref) and E.cell(v)[0] == "set")
@@ -353,7 +353,13 @@ def _iter(E, a, kw, fr, node):
     if isinstance(v, Ref) and E.cell(v)[0] == "iter":
         return v
     if isinstance(v, Ref) and E.cell(v)[0] == "obj":
-        return call_method(E, v, "__iter__", [], {}, fr, node)
+        r = call_method(E, v, "__iter__", [], {}, fr, node)
+        if isinstance(r, Ref) and E.cell(r)[0] == "seq":   # a contract states the iterator by the list of its items
+            return E.alloc(("iter", (E.cell(r)[1], z3.IntVal(0))))
+        return r
+    if isinstance(v, Ref) and E.cell(v)[0] == "dict":
+        d = E.cell(v)[1]
+        return E.alloc(("iter", (SV(E.dkeys(d), TList(d.ty.key)), z3.IntVal(0))))
     sv = E.list_sv(v)
     return E.alloc(("iter", (sv, z3.IntVal(0))))
 
@@ -560,6 +566,18 @@ def _accumulate(E, a, kw, fr, node):
 
 def psum_upto():
     return L.psum_upto
+
+
+def _files(fn):
+    def h(E, a, kw, fr, node):
+        from . import files
+        return getattr(files, fn)(E, a, kw, fr, node)
+    return h
+
+
+for _n, _f in (("builtins.open", "open_file"), ("os.path.exists", "path_exists"), ("os.unlink", "unlink"),
+               ("os.remove", "unlink"), ("pickle.dump", "pickle_dump"), ("pickle.load", "pickle_load")):
+    external(_n, "D2: ghost file system (pyvc/files.py)")(_files(_f))
 
 
 @external("os.urandom", "A1: fresh random bytes of the requested length")
